@@ -126,9 +126,9 @@ impl<'a> Program<'a> {
         /* We only support functions and string variables in stdlib right now */
         if obj.components.len() > 1 {
             for c in obj.components.iter().skip(1) {
-                println!(" > comp: lookup {}", c);
+                println!("Library values have no members: {}", c);
             }
-            unreachable!();
+            return Err(TypeError);
         }
 
         Ok(ret)
